@@ -115,8 +115,14 @@ CHECKS = {
                  "'delay on each cycle >= sum of its largest steps', delay = accumulated DelayFixed delays that take effect "
                  "on the request, wherever placed and however split) the level time+pi strictly decreases along every edge "
                  "of the dependency walk (edge_level), so no lag cycle exists (no_lag_cycle), no circular-coupling error is "
-                 "ever raised (no_circular), and with C03Run.run_terminates the run ends normally. Scope of the run-level "
-                 "theorem: time-stepped components, adapters pass-through / push-based / no-dependency / fixed delay. Tied "
+                 "ever raised (no_circular), and with C03Run.run_terminates the run ends normally. Scope of that run-level "
+                 "theorem: time-stepped components, adapters pass-through / push-based / no-dependency / fixed delay. "
+                 "C04RunP.sufficient_delay_run_completesP extends it to compositions with pull-based components on the "
+                 "cycles (a pull-based component takes the smallest potential its readers allow; the walk's level is "
+                 "carried through it), under UniqueConsumer: every pull-based component is read by one component. The "
+                 "proof attempt without that hypothesis fails, and the failing case is real: known finding "
+                 "pull-reentry-circular (C04RunP.pull_reentry_witness; the package raises the circular-coupling error on "
+                 "T(2) >> P(pull) >> DelayFixed(3) >> T plus a second reader of P). Tied "
                  "to schedule.py by the correspondence on rings (pull components, chords, tails, feeders; outcome class, "
                  "update sequence) and the oracle (unresolved => circular-coupling error; resolved => completes). The "
                  "connect-phase stall is C06's."),
